@@ -136,6 +136,18 @@ func parenC03(c *Ctx, tt *tokenTable) {
 			set := ts.of(rp.Instr.Results[0], map[ssa.Value]bool{})
 			key := "(*Parser).parseUnaryExpr: return after '('"
 			names := set.names()
+			// `return p.helper()`: the helper's (nil, err) answers are error returns
+			if ex0, ok := rp.Instr.Results[0].(*ssa.Extract); ok {
+				if ex1, ok := rp.Instr.Results[1].(*ssa.Extract); ok && ex0.Tuple == ex1.Tuple {
+					var kept []string
+					for _, nm := range names {
+						if nm != "nil" {
+							kept = append(kept, nm)
+						}
+					}
+					names = kept
+				}
+			}
 			if !set.top && len(names) == 1 && names[0] == "*ParenExpr" {
 				c.OK("C03.paren", key, rp.Pos, "returns *ParenExpr")
 			} else {
@@ -602,6 +614,17 @@ func describeOperand(v ssa.Value, binT *types.Named) string {
 			return "field " + st.Field(fa.Field).Name()
 		}
 	case *ssa.Phi:
+		// the operator scanned at more than one site (loop init and post
+		// statement of a three-clause for): every edge is a scanned token
+		allOps := len(x.Edges) > 0
+		for _, e := range x.Edges {
+			if describeOperand(e, binT) != "new op" {
+				allOps = false
+			}
+		}
+		if allOps && !isPhiOfPhi(x) {
+			return "new op"
+		}
 		// rhs is a phi of parseRegex / parseUnaryExpr results
 		return "new operand"
 	case *ssa.Extract:
@@ -950,4 +973,13 @@ func operandHelperShape(h *ssa.Function, prm *ssa.Parameter) string {
 		return ""
 	}
 	return shape
+}
+
+func isPhiOfPhi(x *ssa.Phi) bool {
+	for _, e := range x.Edges {
+		if _, ok := e.(*ssa.Phi); ok {
+			return true
+		}
+	}
+	return false
 }
